@@ -335,6 +335,20 @@ func c10(run *core.Run, replay string) {
 		cases = append(cases, &fmtCase{Cfg: kz.Cfg{Transform: t, Entropy: e, BlockSize: bs, Jobs: 1, Checksum: []uint{0, 32, 64}[r.Intn(3)], Hint: hint, Headerless: r.Intn(8) == 0},
 			Shape: pickShape(r), Size: size, Seed: int64(r.Intn(1 << 30)), DecJ: uint(1 + r.Intn(4))})
 	}
+	// tables driven to their capacity: a vocabulary that fills the text codec's dictionary (2^19 entries, reachable only with
+	// block sizes above 4 MiB / 16 MiB) and wraps it; long-distance and many-match inputs in multi-MiB blocks
+	for i, cc := range []struct {
+		t, e  string
+		bs    uint
+		shape string
+		size  int
+	}{{"TEXT", "NONE", 64 << 20, "wordlist3", 6500000}, {"TEXT", "FPAQ", 8 << 20, "wordlist3", 6000000}, {"TEXT+UTF", "HUFFMAN", 32 << 20, "wordlist", 7000000},
+		{"LZ", "NONE", 16 << 20, "farmatch", 9 << 20}, {"ROLZ", "ANS0", 16 << 20, "repeatblocks", 6 << 20}, {"LZP+TEXT", "RANGE", 64 << 20, "wordlist3", 5500000}} {
+		if !run.Thorough() && i >= 4 {
+			break
+		}
+		cases = append(cases, &fmtCase{Cfg: kz.Cfg{Transform: cc.t, Entropy: cc.e, BlockSize: cc.bs, Jobs: 1, Checksum: []uint{32, 0}[i%2], Hint: -1}, Shape: cc.shape, Size: cc.size, Seed: S + int64(i), DecJ: uint(1 + i%2)})
+	}
 	if run.Thorough() {
 		for _, t := range []string{"BWT", "BWTS", "LZ", "ROLZ", "TEXT"} {
 			cases = append(cases, &fmtCase{Cfg: kz.Cfg{Transform: t, Entropy: "ANS0", BlockSize: 4<<20 + 16, Jobs: 1, Checksum: 32, Hint: -1}, Shape: "text", Size: 5 << 20, Seed: S, DecJ: 3})
